@@ -8,6 +8,7 @@ import GontainerModel.Lemmas.SortedMap
 import GontainerModel.Model.Runtime
 import GontainerModel.Lemmas.History
 import GontainerModel.Lemmas.Rank
+import GontainerModel.Lemmas.NonShared
 import GontainerModel.Generated.Template
 namespace GM.C05
 open GM GM.Graph GM.Output
@@ -210,6 +211,22 @@ theorem contexts_are_separate (p : Runtime.Prog) (rk rkP : String → Nat) (hsr 
 `Get`s never share a contextual instance -/
 theorem plain_get_has_fresh_bag (F : Nat) (p : Runtime.Prog) (st : Runtime.St) (id : String) :
     Runtime.stepOp F p st (.get id) = ((Runtime.get F p st [] id).1, (Runtime.get F p st [] id).2.2) := rfl
+
+/-- **a non_shared service is built afresh for every injection and every Get**: a successful `get` of a service created by
+a constructor whose scope resolves to non_shared returns an object allocated during that very call, and leaves the caches'
+entries for it untouched — whatever state the container is in, whoever asks (a `Get`, or the construction of a dependant) -/
+theorem non_shared_always_fresh (p : Runtime.Prog) (rk rkP : String → Nat) (hsr : Runtime.SRanked p rk) (hpr : Runtime.Ranked p rkP)
+    (f : Nat) (st : Runtime.St) (bag : Runtime.Bag) (id : String) (s : Service) (v : Runtime.RV) (st' : Runtime.St) (bag' : Runtime.Bag)
+    (hov : st.ovServices.lookup id = none) (hs : Runtime.svcByName p id = some s) (hsc : Runtime.effScope p st id = .nonShared)
+    (hc : (s.constructor != "") = true) (hok : Runtime.get f p st bag id = (st', bag', .ok v)) :
+    Runtime.FreshIn st.next st' v ∧ st'.shared.lookup id = st.shared.lookup id ∧ bag'.lookup id = bag.lookup id :=
+  Runtime.get_nonShared_fresh p rk rkP hsr hpr f st bag id s v st' bag' hov hs hsc hc hok
+
+/-- … hence two such calls, one after the other (with anything in between that does not lower the serial counter — nothing
+does, `SInv.nx`), never return the same instance -/
+theorem non_shared_never_same (N : Nat) (st1 st2 : Runtime.St) (v1 v2 : Runtime.RV)
+    (h1 : Runtime.FreshIn N st1 v1) (h2 : Runtime.FreshIn st1.next st2 v2) : v1 ≠ v2 :=
+  Runtime.nonShared_never_same N st1 st2 v1 v2 h1 h2
 
 /-- **for every accepted configuration** (compiled dependency graph acyclic — what `ValidateCircularDeps` checks, C07 — and
 the resolvers' recorded dependencies present): a shared service is instantiated once per container across any history -/
